@@ -737,6 +737,13 @@ def guarded_by_variant(fn, bi, enum_suffix, variant, only=True):
         if fl and fl[0] == tr:
             continue
         ds = fn.defs().get(l, [])
+        # follow plain copies (`_37 = _16; switch _37`)
+        hops = 0
+        while len(ds) == 1 and ds[0][1] != "term" and ds[0][2]["rv"]["k"] == "use" and \
+                not is_const(ds[0][2]["rv"]["o"]) and not op_place(ds[0][2]["rv"]["o"]).get("p") and hops < 6:
+            l = op_place(ds[0][2]["rv"]["o"])["l"]
+            ds = fn.defs().get(l, [])
+            hops += 1
         if not ds:
             continue
         ok = True
